@@ -229,7 +229,8 @@ class Gen:
                 blocks = []
                 for i in range(nn):
                     env2 = dict(env, i=True)
-                    blocks.append(self.scoped(env2, depth + 1, budget, single=True))
+                    # (an iteration may consist of the break alone: the empty branch still ends the chain)
+                    blocks.append([] if rs.below(4) == 0 else self.scoped(env2, depth + 1, budget, single=True))
                 els = self.scoped(env, depth + 1, budget, single=True) if rs.below(2) else None
                 out.append(["forbit", vec, nn, blocks, els])
         # temporaries defined in this block stay visible for the rest of the enclosing scope only when the
@@ -499,8 +500,12 @@ def r_block(stmts, ind, out):
             # per-iteration statements: selected with constant ifs on the loop index (folded at compile time)
             out.append(f"{pad}for i in range({s[2]}):")
             out.append(f"{pad}    if {r_name(s[1])}[i]:")
+            first = True
             for i, b in enumerate(s[3]):
-                out.append(f"{pad}        {'if' if i == 0 else 'elif'} i == {i}:")
+                if not b:
+                    continue  # this iteration consists of the break alone
+                out.append(f"{pad}        {'if' if first else 'elif'} i == {i}:")
+                first = False
                 r_block(b, ind + 3, out)
             out.append(f"{pad}        break")
             if s[4] is not None:
